@@ -82,7 +82,8 @@ def run(ck):
     jobs.append(('checks.c01', 'part_a', ('inverse_intern', pats[0], True, False)))
     jobs.append(('checks.c01', 'part_a', ('inverse_intern_5_dof', pats[0], True, True)))
     ck.parallel(jobs)
-    from . import ikentry
+    from . import ikentry, c04
+    c04.leaf(ck)      # answers are normalised AFTER the cross-check: the leaf contract (out == now mod 2pi) is what keeps them on the pose
     ikentry.c01_part_b(ck)
 
 if __name__ == '__main__':
